@@ -218,6 +218,41 @@ claim('C23',
       'TLA+ specification checked by TLC + replay of exported designs + TLA+ judge of observed generator output', '5.8, 6/C23')
 
 
+claim('C18',
+      'spec/mech/CaseDB.tla: the recorder\'s SQLite file as durable rows + uncommitted transaction with Crash enabled in every state; TLC proves '
+      'CrashPrefix and Atomicity over all bounded runs (and refutes them on a deliberately broken variant). CaseDBTrace.tla validates the SQL '
+      'statement stream observed through sqlite3\'s trace callback. Crash enumeration: a forked child dies (os._exit) immediately before EVERY '
+      'statement/commit boundary of real recordings (thorough: plus SIGKILL at random times); the file is re-opened with CaseReader and '
+      'list_cases must be a prefix of the uncrashed run with every case readable and equal.',
+      'fault_enumeration: evaluations = crash points executed; the pre-startup window (file not yet openable) and the window between a DOE driver '
+      'case and its separate derivatives row are counted, not judged; SQLite commit atomicity is trusted; serial runs.',
+      'TLA+ transaction spec + TLC + trace validation of the statement stream + crash enumeration at every statement boundary',
+      '4 (K), 5.4, 6/C18', category='fault_enumeration')
+
+claim('C26',
+      'spec/mech/StockComps.tla: formulas and exact Jacobians of the ten stock math components over exact rationals; TLC enumerates option sets '
+      '(vec_size, shapes, axis, scaling factors, unit factors, use_mult/normalize ...) with integer inputs and checks the laws (exact difference = '
+      'Jacobian column, Mux bijection, skew structure, A x = b relation ...); every exported scenario is built as the real component and its '
+      'outputs and assembled totals (fwd/rev) or residual-form sub-Jacobians are compared at 1e-12.',
+      'Integer / Pythagorean / unimodular data; SplineComp Jacobian entry-wise for slinear and by reproduction relations otherwise; BalanceComp in residual form.',
+      'TLA+ exact-rational oracle + TLC scenario enumeration + replay into the real components', '5.8, 6/C26')
+
+claim('C28',
+      'PARTIAL. spec/mech/Surrogate.tla: (a) ResponseSurface on integer quadratics at off-lattice dyadic points (exact value and gradient), (b) the '
+      'lookup law Predict(train_x[i]) = train_y[i] for NearestNeighbor linear/weighted/rbf and Kriging, (c) the MetaModelUnStructuredComp plumbing: '
+      'the exact dense Jacobian and the index map of which linearize() entry each total must forward; all TLC-exported scenarios are replayed.',
+      'Derivative-of-predict for non-polynomial surrogates is only a central-difference relation on observed numbers; Kriging lookup judged only for '
+      'cond(R) <= 1e4.',
+      'TLA+ enumeration with exact quadratic oracle, lookup law and Jacobian index map + replay', '6/C28, 7')
+
+claim('C30',
+      'PARTIAL. spec/mech/CsSafe.tla: the sign/zero/axis/quadrant case table and the exact rational directional derivative of cs_safe.abs, norm (on '
+      'Pythagorean data) and arctan2 (all quadrants and half-axes) with laws; each TLC-exported point x direction is replayed with h = 1e-40: real '
+      'part equals NumPy exactly, imag/h equals the spec at 1e-12; for the jax smooth/KS helpers only exactly rational identities are replayed.',
+      'Integer points, one step size; either one-sided derivative accepted at the kink of abs; accuracy of tanh/exp smoothing out of scope.',
+      'TLA+ enumeration of points x directions with exact rational derivatives + complex-step replay', '6/C30, 7')
+
+
 def main():
     checks = []
     for pid in ALL:
